@@ -26,6 +26,7 @@ class Quant(object):
         self.body = body
         self.inst = inst      # optional explicit list of terms (E) replacing the global term list
         self.name = name
+        self.is_inner = False
 
     def at(self, t, rest=()):
         """instance at term t; a nested Quant in the body takes its terms from `rest` (skolemisation) """
@@ -36,8 +37,12 @@ class Quant(object):
     def instances(self, terms):
         """all instances over the term list (nested quantifiers: all tuples)"""
         out = []
+        probe = self.body(E.var('sk0', INT))
+        nested = isinstance(probe, Quant) or (isinstance(probe, (list, tuple)) and any(isinstance(x, Quant) for x in probe))
         for t in terms:
             t = E.const(t)
+            if not nested and t.op == 'var' and t.args[0] in ('sk1', 'sk2') and not self.is_inner:
+                continue        # inner-level skolems are only useful to nested quantifiers
             g = (self.lo <= t) & (t < self.hi)
             for x in _all_instances(self.body(t), terms):
                 out.append(implies(g, x))
@@ -59,12 +64,14 @@ def _inst_body(b, rest):
 
 def _all_instances(b, terms):
     if isinstance(b, Quant):
+        b.is_inner = True
         return b.instances(b.inst if b.inst is not None else terms)
     if isinstance(b, (list, tuple)):
         out = []
         plain = []
         for x in b:
             if isinstance(x, Quant):
+                x.is_inner = True
                 out += x.instances(x.inst if x.inst is not None else terms)
             else:
                 plain.append(x)
@@ -158,6 +165,13 @@ class Spec(object):
 
     def ghost(self, anchor, fn):
         self.ghosts.setdefault(anchor, []).append(fn)
+
+    def sk(self, level=0):
+        return self.gen.skolem(level)
+
+    def local(self, name):
+        """value of a top-level local variable of the function under verification (verify mode, exit ghosts only)"""
+        return self.wrap(self.gen.fn.locals[name])
 
     def fresh_int(self, base='g'):
         return self.gen.fresh_global(base, INT)
@@ -297,6 +311,44 @@ class Generator(object):
         else:
             self.emit_assert(prop, oid, kind)
 
+    def assume_quants_over(self, prop, terms, why):
+        if isinstance(prop, Quant):
+            seen = set()
+            if prop.inst is not None:
+                extra = [t for t in terms if t.key() not in set(x.key() for x in self.all_terms())]
+                terms = list(prop.inst) + extra
+            for inst in prop.instances(terms):
+                k = inst.key()
+                if k not in seen:
+                    seen.add(k)
+                    self.emit_assume(inst, why)
+        elif isinstance(prop, (list, tuple)):
+            for x in prop:
+                self.assume_quants_over(x, terms, why)
+
+    def compute_stable_quants(self, spec):
+        """quantified requires whose free variables and arrays are never written by the function stay valid everywhere"""
+        sc, ar = ir.write_set(self.fn.body)
+        assigned = set(sc) | set('@' + a for a in ar)
+
+        def f(st):
+            if isinstance(st, CallContract):
+                fs, fa = self.call_frame(st)
+                assigned.update(fs)
+                assigned.update('@' + a for a in fa)
+        ir.walk(self.fn.body, f)
+        out = []
+        for label, prop in spec.reqs:
+            for q in _quants_of(prop):
+                try:
+                    sample = q.at(E.var('sk0', INT), (E.var('sk1', INT), E.var('sk2', INT)))
+                except Exception:
+                    continue
+                fv = free_vars(sample) - {'sk0', 'sk1', 'sk2'}
+                if not (fv & assigned):
+                    out.append((label, q))
+        return out
+
     def assume_prop(self, prop, why=''):
         if isinstance(prop, Quant):
             ts = prop.inst if prop.inst is not None else self.all_terms()
@@ -342,12 +394,14 @@ class Generator(object):
                 self.globals_a[prefix + n] = t
                 self.out('__CPROVER_array_copy(%s, %s);' % (prefix + n, n))
 
-    def havoc_names(self, scalars, arrays, loopvar=None, loopvar_h=None):
+    def havoc_names(self, scalars, arrays, loopvar=None, loopvar_h=None, record=None):
         for n, t in scalars:
             if n == loopvar and loopvar_h is not None:
                 self.out('%s = %s;' % (n, self.p(loopvar_h)))
                 continue
             h = self.fresh_global('hv', t)
+            if record is not None:
+                record[n] = h
             self.out('%s = %s;' % (n, self.p(h)))
         for n, t in arrays:
             h = self.fresh_global('HA', t, array=True)
@@ -439,6 +493,7 @@ class Generator(object):
             if c is None:
                 raise GenError('loop %s of inlined function %s has no contract' % (ordinal, fname))
             owner = Spec(self, lp.ns, spec.cfg, 'loop', '')
+            c = c.select(lp.fn_node, len(lp.fn_params)) if hasattr(lp, 'fn_node') else c
             c.spec(owner)
         for k in ((ordinal, repl), (ordinal, None)):
             if k in owner.loops:
@@ -545,11 +600,19 @@ class Generator(object):
             if st:
                 sc.update(dict(st[0]))
                 ar.update(dict(st[1]))
-        self.havoc_names(sorted(sc.items()), sorted(ar.items()))
+        drawn = {}
+        self.havoc_names(sorted(sc.items()), sorted(ar.items()), record=drawn)
         for label, prop in cs.enss:
             self.assume_prop(prop, 'callee ensures ' + label)
-        for t in cs.user_terms:
-            self.add_term(t)
+        # terms named by the callee in call mode are *late* terms: they are meaningful from here on.  The callee's
+        # quantified ensures and every frame-stable quantified hypothesis of the function are instantiated at them now.
+        late = list(cs.user_terms)
+        if late:
+            pool = list(self.all_terms()) + late
+            for label, prop in cs.enss:
+                self.assume_quants_over(prop, pool, 'callee ensures %s (late terms)' % label)
+            for label, prop in self.stable_quants:
+                self.assume_quants_over(prop, pool, 'requires %s (late terms)' % label)
 
     # ---------------------------------------------------------------------------------------- top level
     def generate(self):
@@ -566,6 +629,7 @@ class Generator(object):
         self.contract.spec(spec)
         for t in spec.user_terms:
             self.add_term(t)
+        self.stable_quants = self.compute_stable_quants(spec)
         self.ind = 1
         # requires
         self.out('/* ---- configuration pins (finite enumeration of a runtime parameter) */')
@@ -592,6 +656,7 @@ class Generator(object):
         self.obls[-1].index = len(self.obls)
         self.out('__CPROVER_assert(0, "reach");')
         frame_problems = self.check_frame(spec)
+        self.check_terms()
         h = Harness()
         h.obligations = self.obls
         h.text = self.render()
@@ -626,6 +691,20 @@ class Generator(object):
         bad = [n for n in sc if n in owned_s and n not in allowed_s] + [n for n in ar if n in owned_a and n not in allowed_a]
         return sorted(bad)
 
+    def check_terms(self):
+        """instantiation terms must denote the same value at every program point: no assigned scalar may occur"""
+        sc, _ = ir.write_set(self.fn.body)
+        assigned = set(sc)
+        def f(st):
+            if isinstance(st, CallContract):
+                fs, _fa = self.call_frame(st)
+                assigned.update(fs)
+        ir.walk(self.fn.body, f)
+        for t in self.terms:
+            bad = [v for v in free_vars(t) if v in assigned]
+            if bad:
+                raise GenError('instantiation term %s mentions assigned variable(s) %s' % (self.p(t), bad))
+
     def render(self):
         L = []
         L.append('/* generated by /verif/stv/gen.py -- do not edit.  harness for %s [%s] */' % (self.fn.key, self.cfgname))
@@ -643,6 +722,17 @@ class Generator(object):
         L.append('  return 0;')
         L.append('}')
         return '\n'.join(L) + '\n'
+
+
+def _quants_of(prop):
+    if isinstance(prop, Quant):
+        return [prop]
+    if isinstance(prop, (list, tuple)):
+        out = []
+        for x in prop:
+            out += _quants_of(x)
+        return out
+    return []
 
 
 class GhostCtx(object):
